@@ -1595,59 +1595,94 @@ func ruleLiteralOperandPerSample(r *Run) {
 		return
 	}
 	n, good := 0, true
-	allInstrs(fn, func(in ssa.Instruction) {
-		st, ok := in.(*ssa.Store)
-		if !ok {
-			return
+	isRanged := func(v ssa.Value) bool {
+		sb := unspill(v)
+		if a2, isA := sb.(*ssa.Alloc); isA {
+			for _, s3 := range storesTo(a2) {
+				if u, ok := s3.Val.(*ssa.UnOp); ok && isIndexOf(u.X, loop) {
+					return true
+				}
+			}
 		}
-		f, base, ok := fieldNameOf(st.Addr)
-		if !ok || f != "Set" || typeKey(derefType(base.Type())) != "Sample" {
-			return
+		if u, isU := sb.(*ssa.UnOp); isU {
+			if isIndexOf(u.X, loop) {
+				return true
+			}
+			if a2, isA := u.X.(*ssa.Alloc); isA {
+				for _, s3 := range storesTo(a2) {
+					if u2, ok := s3.Val.(*ssa.UnOp); ok && isIndexOf(u2.X, loop) {
+						return true
+					}
+				}
+			}
 		}
-		// is this the literal operand? its Data is the iterator's value
-		al, ok := base.(*ssa.Alloc)
-		if !ok {
-			return
-		}
-		isLit := false
-		for _, ref := range *al.Referrers() {
-			if fa, ok := ref.(*ssa.FieldAddr); ok {
-				if nm, _, _ := fieldNameOf(fa); nm == "Data" {
-					for _, s2 := range storesTo(fa) {
-						if lf, _, ok := loadOfField(s2.Val); ok && lf == "value" {
-							isLit = true
+		return isIndexOf(sb, loop)
+	}
+	for _, g := range funcGroup(fn) {
+		g := g
+		allInstrs(g, func(in ssa.Instruction) {
+			st, ok := in.(*ssa.Store)
+			if !ok {
+				return
+			}
+			f, base, ok := fieldNameOf(st.Addr)
+			if !ok || f != "Set" || typeKey(derefType(base.Type())) != "Sample" {
+				return
+			}
+			// is this the literal operand? its Data is the iterator's value
+			al, ok := base.(*ssa.Alloc)
+			if !ok {
+				return
+			}
+			isLit := false
+			for _, ref := range *al.Referrers() {
+				if fa, ok := ref.(*ssa.FieldAddr); ok {
+					if nm, _, _ := fieldNameOf(fa); nm == "Data" {
+						for _, s2 := range storesTo(fa) {
+							if lf, _, ok := loadOfField(s2.Val); ok && lf == "value" {
+								isLit = true
+							}
 						}
 					}
 				}
 			}
-		}
-		if !isLit {
-			return
-		}
-		n++
-		sf, sbase, ok := loadOfField(st.Val)
-		elem := false
-		if ok && sf == "Set" {
-			sb := unspill(sbase)
-			if a2, isA := sb.(*ssa.Alloc); isA {
-				for _, s3 := range storesTo(a2) {
-					if u, ok := s3.Val.(*ssa.UnOp); ok && isIndexOf(u.X, loop) {
-						elem = true
+			if !isLit {
+				return
+			}
+			n++
+			sf, sbase, ok := loadOfField(st.Val)
+			elem := false
+			if ok && sf == "Set" {
+				if g == fn {
+					elem = isRanged(sbase) && loop.Blocks[st.Block()]
+				} else if q, isP := spillParam(unspill(sbase)).(*ssa.Parameter); isP || func() bool { q, isP = spillParam(sbase).(*ssa.Parameter); return isP }() {
+					// built in a helper from its sample parameter: every call in Next hands it the ranged sample, inside the loop
+					idx := -1
+					for i, prm := range g.Params {
+						if prm == q {
+							idx = i
+						}
 					}
+					calls := 0
+					elem = idx >= 0
+					for _, c := range callsIn(fn) {
+						if staticCallee(c) != g {
+							continue
+						}
+						calls++
+						if idx >= len(c.Common().Args) || !isRanged(c.Common().Args[idx]) || !loop.Blocks[c.Block()] {
+							elem = false
+						}
+					}
+					elem = elem && calls > 0
 				}
 			}
-			if u, isU := sb.(*ssa.UnOp); isU && isIndexOf(u.X, loop) {
-				elem = true
+			if !elem {
+				good = false
+				o.Fail(r.pos(st.Pos()), "the scalar operand's label set is %s, not the label set of the sample it is combined with", describe(st.Val, 0))
 			}
-			if isIndexOf(sb, loop) {
-				elem = true
-			}
-		}
-		if !elem || !loop.Blocks[st.Block()] {
-			good = false
-			o.Fail(r.pos(st.Pos()), "the scalar operand's label set is %s, not the label set of the sample it is combined with", describe(st.Val, 0))
-		}
-	})
+		})
+	}
 	if n == 0 {
 		o.Undecide(r.pos(fn.Pos()), "the construction of the scalar operand (Sample{Data: i.value, Set: ...}) was not found")
 		return
